@@ -18,7 +18,8 @@
 (* Tokens carry the concrete values the harness rendered (ver "1.2.3", ts "17000000000"),     *)
 (* plus vclass ("p2" iff 1.1.0 <= ver <= 1.1.3).  The outcome is a function of the history,   *)
 (* so the search is linear; a mismatch prints what the specification expects and disables     *)
-(* the step (the trace is rejected at that line).                                             *)
+(* the step (the trace is rejected at that line).  Must is an IF, not a disjunction: TLC      *)
+(* would enumerate both disjuncts of an action-level \/ and print for satisfied conditions.   *)
 EXTENDS Detector, Json, IOUtils, TLCExt
 
 TraceLog == ndJsonDeserialize(IOEnv.VERIF_TRACE)
@@ -35,7 +36,7 @@ TInit == /\ role = "client" /\ win = FALSE /\ mem = <<>> /\ seen = <<>> /\ n = 0
 TReset == IsEvent("reset") /\ Reset(Ev.role, Ev.win)
 
 Must(cond, what, o) ==
-    cond \/ (PrintT("MISMATCH " \o ToJson([line |-> l, what |-> what, role |-> role, win |-> win, level |-> Ev.level,
+    IF cond THEN TRUE ELSE (PrintT("MISMATCH " \o ToJson([line |-> l, what |-> what, role |-> role, win |-> win, level |-> Ev.level,
                                             why |-> o.why, want_fired |-> o.fired, want_mode |-> o.mode, want_ver |-> o.ver,
                                             want_ts |-> o.ts, want_sfx |-> o.sfx, want_port |-> o.port,
                                             memlen |-> Len(mem)])) /\ FALSE)
